@@ -23,6 +23,7 @@ fn main() {
     }
     match args[1].as_str() {
         "run" => run(&args[2..]),
+        "restore1" => drive::restore1(&args[2..]),
         "fsck" => {
             println!("{}", decode::fsck(&PathBuf::from(&args[2])));
         }
